@@ -6,6 +6,8 @@ Q=["quick","thorough"];T=["thorough"]
 H=[{"name":"H_witness","tiers":Q,"expect":"violation","bounds":"vacuity witness"}]
 H.append({"name":"H_whitelist","tiers":Q,"scale":"b2","bounds":"B=2, alphabet {0,1}: new build of 4 files (whole-file copy, patched, brand-new, empty); all 16 whitelist subsets; plain and optimized (ForceMapAll) patch; old sizes (2,3); optimized patch for subsets {}, {1}, {0,2}, {1,3}, all",
   "param_sets":[{"ka":2,"kb":3,"mask":m,"opt":0} for m in range(16)]+[{"ka":2,"kb":3,"mask":m,"opt":1} for m in (0,2,5,10,15)]})
+H.append({"name":"H_whitelist","tiers":Q,"scale":"b2","bounds":"the same subsets written as an explicit true/false verdict per index (map entries with value false): 8 subsets plain, 2 optimized",
+  "param_sets":[{"ka":2,"kb":3,"mask":m,"opt":0,"falses":1} for m in (0,1,2,5,6,9,10,15)]+[{"ka":2,"kb":3,"mask":m,"opt":1,"falses":1} for m in (2,5)]})
 H.append({"name":"H_skip","tiers":Q,"bounds":"hand-built optimized patch over an old container of 2051 files: skipped bsdiff series with symbolic TargetIndex in [0,2050] and symbolic 64-bit Seek; next file whitelisted","param_sets":[{}]})
 H.append({"name":"H_whitelist","tiers":T,"scale":"b2","bounds":"old sizes in {(0,1),(2,2),(5,3),(4,5)}; all subsets; plain and optimized","max_seconds":1500,
   "param_sets":[{"ka":a,"kb":b,"mask":m,"opt":o} for (a,b) in ((0,1),(2,2),(5,3),(4,5)) for m in range(16) for o in (0,1)]})
